@@ -6,7 +6,7 @@ from vlib import _collect_prints as vlib_collect
 
 CLAUSES = {"wrong_result", "wrong_errno", "no_timeout", "lost_completion", "abort", "hang", "panic"}
 DEVS = [("submit_before_insert", "NoLostCompletion"), ("timeout_keeps_slot", "any"), ("token_per_caller", "any"),
-        ("token_ignores_thread", "any"), ("code", "any")]
+        ("token_ignores_thread", "any"), ("sq_concurrent_push", "NoLostCompletion"), ("code", "any")]
 
 
 def run(pid, tier):
